@@ -2,6 +2,7 @@
 import os, sys, json, time, random, shutil, re
 import check as C
 import gens
+import faults
 
 # Each property: lean modules holding its theorems, the helper-lemma modules that tie generated guards,
 # the correspondence runs (engine, generator, #cases quick, #cases thorough), claimed level.
@@ -148,6 +149,25 @@ PROPS = {
         level_text='C18_fill, C18_assemble (any selection of segments, empty ones anywhere, all heights: every level is the concatenation, statistics are sums, WF and ordered-set behaviour afterwards) and C18_merge (SeekFirst/Seek at ANY point reposition at the minimum / minimum >= x and the scan is the sorted merge) proved on the pointer-level heap; the heap-reset of SeekFirst/Seek is regenerated from merger.go',
         trusted=['Lean 4 kernel', 'tools/gofacts facts mergeSeekFirstResets/mergeSeekResets and skeletons', 'container/heap modelled as a list with extract-min (trusted)',
                  'differential run: segments filled in interleaved order with scripted levels, assembled, walked on all levels, then used; merges with re-seeks before/during/after a scan'],
+    ),
+    'C11': dict(
+        modules=['NitroVerif.Props.C11'],
+        extra=[faults.c11_extra],
+        level='proof',
+        level_text='C11_load_damaged (every damage of the fault model gives error, the exact content, or one of four precisely stated residual cases no 32-bit XOR-of-CRC can exclude), C11_truncated_shard_err, C11_removed_shard_err, C11_files_missing_err, C11_unparsable_err, C11_sums_wrong_length_err, C11_sums_altered_err, C11_terminates with pool_no_deadlock (any number of failing shards and workers) are proved on the model of LoadFromDisk over directory images; fault enumeration on real backups (every removal, truncation lengths, byte flips, multi-shard damage at several load concurrencies) compares the real LoadFromDisk with the model on the SAME damaged image and judges it by the property',
+        trusted=['Lean 4 kernel', 'tools/gofacts translation of the checksum tests and the skeleton of LoadFromDisk',
+                 'fault enumeration against the real LoadFromDisk (loadimg), model and implementation on identical images',
+                 'encoding/json is a parameter: the harness passes Go own parse result of every (damaged) manifest; crc32 generic in the theorems, concrete in the driver',
+                 'residual cases R1-R4 and D16 are recorded in known_findings.json'],
+    ),
+    'C12': dict(
+        modules=['NitroVerif.Props.C12'],
+        extra=[faults.c12_extra],
+        level='proof',
+        level_text='C12_crash_prefix (every prefix of every effect list of StoreToDisk, all chunkings and interleavings of shard writes: load gives error or the exact content), C12_crash_before_closes_err, C12_store_complete, C12_write_failure, C12_failed_close_is_error are proved on the effect-list model; the order of the file-system effects is tied by the regenerated skeleton of StoreToDisk/rawFileWriter.Close; crash images are captured at every file-system yield point of real backups (small bufio blocks so shard files are partial) and write failures are injected with RLIMIT_FSIZE at every budget in a range',
+        trusted=['Lean 4 kernel', 'tools/gofacts skeletons of StoreToDisk and rawFileWriter.Close',
+                 'crash-point and write-budget enumeration on the real StoreToDisk/LoadFromDisk',
+                 'a crash keeps exactly the file-system effects issued so far (no torn writes below the granularity of a write call, no reordering by the OS)'],
     ),
 }
 
